@@ -31,7 +31,7 @@ type Result struct {
 	Extra              map[string]any `json:"extra,omitempty"`
 }
 
-const maxFailuresKept = 200
+const maxFailuresKept = 5000
 
 func (r *Result) fail(f Failure) {
 	r.mu.Lock()
